@@ -24,6 +24,9 @@ pub(crate) struct Http1Codec<IO> {
     transport_stream: IO,
     /// Receives messages from [`StreamSink.download_tx`]
     download_rx: mpsc::Receiver<Bytes>,
+    /// The part of a received message not yet written to the transport: it is kept here, and not
+    /// in a local of [`Http1Codec::listen`], as the caller may drop that future at any point
+    download_in_flight: Bytes,
     /// See [`StreamSink.download_tx`]
     download_tx: Option<mpsc::Sender<Bytes>>,
     /// Waits notify from [`StreamSink.download_eof`]
@@ -101,6 +104,7 @@ where
             }),
             transport_stream,
             download_rx,
+            download_in_flight: Bytes::new(),
             download_tx: Some(download_tx),
             download_eof: Arc::new(Notify::new()),
             upload_rx: Some(upload_rx),
@@ -184,6 +188,12 @@ where
 {
     async fn listen(&mut self) -> io::Result<Option<Box<dyn http_codec::Stream>>> {
         loop {
+            if !self.download_in_flight.is_empty() {
+                self.transport_stream
+                    .write_all_buf(&mut self.download_in_flight)
+                    .await?;
+            }
+
             let wait_read = async {
                 let mut buffer = self.state.take_buffer();
                 // a buffered part of the request head is incomplete: wait for the rest of it
@@ -240,7 +250,7 @@ where
                         }
                         return Err(io::Error::from(ErrorKind::UnexpectedEof));
                     },
-                    Some(mut bytes) => self.transport_stream.write_all_buf(&mut bytes).await?,
+                    Some(bytes) => self.download_in_flight = bytes,
                 },
                 _ = self.download_eof.notified() => {
                     self.graceful_shutdown().await?;
@@ -252,6 +262,9 @@ where
 
     async fn graceful_shutdown(&mut self) -> io::Result<()> {
         // nothing queued for the client may be lost
+        self.transport_stream
+            .write_all_buf(&mut self.download_in_flight)
+            .await?;
         while let Ok(mut chunk) = self.download_rx.try_recv() {
             self.transport_stream.write_all_buf(&mut chunk).await?;
         }
